@@ -297,7 +297,7 @@ func Check() *common.Check {
 		Level:     "exploration",
 		CrashSafe: true,
 		Rule: "scripts S1;...;Sn: all sequences of n<=2 over the full pool (9 valid statements - one per kind plus DESCRIBE / SHOW / REPLACE, which do not start with a recovery synchronisation keyword - and every failing corruption of them: first / second / last token deleted, middle token duplicated or replaced, truncated after 2, 3, 4 tokens and at half, none containing a statement-starting keyword after its first token), n<=3 over the valid statements and an even spread of 14 corruptions " +
-			"and n<=5 (quick) / n<=6 (thorough) over 2 valid + 3 corrupt, each with and without a trailing semicolon; every rejected proper prefix (up to the first inner statement-starting keyword) of every clause-option, DML and DDL statement of the sqlgen space, followed by SHOW TABLES / a SELECT / a malformed non-keyword segment, and between two neighbours; every proper prefix of those statements followed by a statement exactly at the nesting limit (which must be returned); all scripts of <=3 segments over 6 MySQL-only / portable / malformed statements through the recovery method of a parser built with the mysql dialect, once and twice; every byte prefix (quick: 600 bytes) of every corpus file under /repo/testdata for termination and the iff clause; every single-token deletion / duplication / replacement inside every representative expression of sqlgen (in WHERE and in the select list) before a follower and between two neighbours; plus all lexeme sequences of length <=3 (quick) / <=4 (thorough) over a 24-lexeme alphabet for termination and the iff clause. " +
+			"and n<=5 (quick) / n<=6 (thorough) over 2 valid + 3 corrupt, each with and without a trailing semicolon; every rejected proper prefix (up to the first inner statement-starting keyword) of every clause-option, DML and DDL statement of the sqlgen space, followed by SHOW TABLES / a SELECT / a malformed non-keyword segment, and between two neighbours; every proper prefix of those statements followed by a statement exactly at the nesting limit (which must be returned); all scripts of <=3 segments over 6 MySQL-only / portable / malformed statements through the recovery method of a parser built with the mysql dialect, once and twice; every byte prefix (quick: 600 bytes) of every corpus file under /repo/testdata for termination and the iff clause; every single-token deletion / duplication / replacement inside every representative expression of sqlgen (in WHERE and in the select list) and at every position of every clause-option / DML / DDL statement without an inner statement-starting keyword, before a follower and between two neighbours; plus all lexeme sequences of length <=3 (quick) / <=4 (thorough) over a 24-lexeme alphabet for termination and the iff clause. " +
 			"distinct = distinct script text; non-trivial = script mixes well-formed and malformed segments",
 		Assume: []string{"a segment is well-formed iff gosqlx.Parse accepts it alone", "parser-token count of a segment = number of generator lexemes; verified at run time on the accepted statement each segment was cut from, and where it does not hold (keyword pairs the tokenizer merges) the token-index clause is replaced by the reported-column clause alone"},
 		Enumerate: func(e *common.Enum) {
@@ -466,6 +466,12 @@ func Check() *common.Check {
 				corruptExpr("where:"+name, sqlgen.Sel{Items: []sqlgen.SelItem{{X: sqlgen.Col("c0")}}, From: []sqlgen.TableRef{{Name: "t0"}}, Where: &x}.Build())
 				corruptExpr("item:"+name, sqlgen.Sel{Items: []sqlgen.SelItem{{X: x}, {X: sqlgen.Col("c0")}}, From: []sqlgen.TableRef{{Name: "t0"}}}.Build())
 			})
+			// the same corruptions at every position of every clause-option, DML and DDL statement that has no inner
+			// statement-starting keyword: the words of the clauses behind the corruption (BY, SETS, ROWS, NOTHING ...) must
+			// not be taken for statement boundaries either
+			sqlgen.ClauseOptions(func(name string, st sqlgen.S) { corruptExpr("clause:"+name, st) })
+			sqlgen.DMLCases(func(name string, st sqlgen.S) { corruptExpr("dml:"+name, st) })
+			sqlgen.DDLCases(func(name string, st sqlgen.S) { corruptExpr("ddl:"+name, st) })
 			// every byte prefix (quick: the first 600 bytes) of every corpus file: statement kinds and dialect constructs
 			// outside the model grammar, cut at every point - termination and the iff clause
 			var files []string
